@@ -42,7 +42,7 @@ const (
 		"</hello>]]>]]>"
 
 	helloPattern      = `(?is)(<(\w+:)?hello.*</(\w+:)?hello>)`
-	capabilityPattern = `(?i)(?:<(?:\w+:)?capability>)(.*?)(?:</(?:\w+:)?capability>)`
+	capabilityPattern = `(?is)(?:<(?:\w+:)?capability>)\s*(.*?)\s*(?:</(?:\w+:)?capability>)`
 
 	// the id of a reply: only looked for in an rpc-reply start tag, an echoed rpc carries a message-id too
 	messageIDPattern      = `(?i)<(?:\w+:)?rpc-reply[^>]*?message-id="(\d+)"`
